@@ -384,11 +384,16 @@ def rule_q3_q5_q6(ck, prog, S, cfg):
     # Q5
     st = K.site(add, "text-failure-not-fatal", 0)
     adds = [c for c in add.calls("fifo_add")]
-    dups = [c for c in add.calls() if c.get("callee") in DUP_CALLS]
+    def is_dup(c):
+        if c.get("callee") in DUP_CALLS:
+            return True
+        g_ = prog.fn(c.get("callee") or "")       # a file-local helper that does the duplication
+        return g_ is not None and g_.static and any(x.get("callee") in DUP_CALLS for x in g_.calls())
+    dups = [c for c in add.calls() if is_dup(c)]
     host, hostadds = add, adds
     if not dups:
         # the text may be duplicated by the caller, which then hands the finished entry over
-        dups = [c for c in push.calls() if c.get("callee") in DUP_CALLS]
+        dups = [c for c in push.calls() if is_dup(c)]
         if dups:
             host, hostadds = push, list(push.calls("SCPI_ErrorAddInternal"))
             pga = S.pg(add)
